@@ -11,6 +11,19 @@
 // by measure / predictedMeasure / innovation / getNoiseCovarianceMatrix of the measurement
 // model), lok (scripted validity of the likelihood model), skpp skgp skpc skgc (skip flags of
 // PFPrediction, GaussianPrediction, PFCorrection, GaussianCorrection); int seed; scale.
+//
+// TIME-VARYING INPUTS.  Everything the API lets a model report differently from one call to the
+// next is served per step from one Shared record that the harness refills before each step:
+// F, Q (getStateTransitionMatrix / getNoiseCovarianceMatrix of the prediction's state model),
+// H, G, G2, b, g, R (getMeasurementMatrix / predictedMeasure / getNoiseCovarianceMatrix of the
+// measurement model; the number of rows of H, i.e. the measurement size, may change too),
+// Ft, Qt (transition density of the harness state model; the library's WhiteNoiseAcceleration has
+// fixed parameters), scale (GaussianLikelihood::scale_factor_, a protected member the subclass
+// may set).  Step k uses mat "<name>_<k>" when the case has it and mat "<name>" otherwise; the
+// measurement of step k is the top rows(H_k) rows of column k of ys.  ONE GPFPrediction and ONE
+// GPFCorrection object (with its one likelihood model, wrapped correction and transition model)
+// live through the whole history, so anything an object caches from an earlier call is stale
+// at a later one.
 // meta: wrap = kf | ukf | sukf, likkind = gaussian (bfl::GaussianLikelihood) | indep (a
 // likelihood model that does not consult the measurement model's validity), optional int
 // badlik = +1 / -1 (the likelihood model returns one value too many / too few).
@@ -40,9 +53,6 @@
 using namespace bfl;
 using namespace Eigen;
 
-struct Shared { MatrixXd y; bool mv = true, pv = true, iv = true, cv = true, lik_ok = true; long badlik = 0; };
-
-// C05's family of measurement functions
 struct Family {
     long kind = 0; MatrixXd H, G, G2, b, g;
     MatrixXd eval(const Ref<const MatrixXd>& X) const {
@@ -53,47 +63,74 @@ struct Family {
     }
 };
 
+// what the models serve at the current step (refilled by the harness before every step)
+struct Shared {
+    MatrixXd y; bool mv = true, pv = true, iv = true, cv = true, lik_ok = true; long badlik = 0;
+    MatrixXd F, Q, Ft, Qt, R; Family f; double scale = 1.0;
+};
+
+// value of a per-step operand: mat "<name>_<k>" if present, else mat "<name>"
+static const MatrixXd& stepmat(const vf::Case& c, const std::string& name, long k) {
+    const std::string nk = name + "_" + std::to_string(k);
+    return c.has_mat(nk) ? c.mat(nk) : c.mat(name);
+}
+static void serve(Shared& sh, const vf::Case& c, long k) {
+    sh.F = stepmat(c, "F", k); sh.Q = stepmat(c, "Q", k); sh.Ft = stepmat(c, "Ft", k); sh.Qt = stepmat(c, "Qt", k);
+    sh.R = stepmat(c, "R", k);
+    sh.f.kind = c.mi("hkind", 0);
+    sh.f.H = stepmat(c, "H", k); sh.f.G = stepmat(c, "G", k); sh.f.G2 = stepmat(c, "G2", k); sh.f.b = stepmat(c, "b", k); sh.f.g = stepmat(c, "g", k);
+    sh.scale = stepmat(c, "scale", k)(0, 0);
+    sh.y = c.mat("ys").col(k).topRows(sh.f.H.rows());
+}
+
+// C05's family of measurement functions: struct Family above
+
 static std::pair<bool, Data> innov(bool ok, const Data& pred, const Data& meas) {
     MatrixXd i = -(any::any_cast<MatrixXd>(pred).colwise() - any::any_cast<MatrixXd>(meas).col(0));
     return std::make_pair(ok, Data(std::move(i)));
 }
 
-// linear model for KFCorrection (hkind 0, b = 0)
+// linear model for KFCorrection (hkind 0, b = 0): measurement matrix and noise covariance of the current step
 struct ServedLTI : public LTIMeasurementModel {
     const Shared* sh_;
     ServedLTI(const MatrixXd& H, const MatrixXd& R, const Shared* sh) : LTIMeasurementModel(H, R), sh_(sh) {}
     bool freeze(const Data&) override { return true; }
+    MatrixXd getMeasurementMatrix() const override { return sh_->f.H; }
     std::pair<bool, Data> measure(const Data&) const override { return std::make_pair(sh_->mv, Data(sh_->y)); }
-    std::pair<bool, Data> predictedMeasure(const Ref<const MatrixXd>& X) const override { MatrixXd p = H_ * X; return std::make_pair(sh_->pv, Data(std::move(p))); }
+    std::pair<bool, Data> predictedMeasure(const Ref<const MatrixXd>& X) const override { MatrixXd p = sh_->f.H * X; return std::make_pair(sh_->pv, Data(std::move(p))); }
     std::pair<bool, Data> innovation(const Data& p, const Data& m) const override { return innov(sh_->iv, p, m); }
-    std::pair<bool, MatrixXd> getNoiseCovarianceMatrix() const override { return std::make_pair(sh_->cv, R_); }
-    VectorDescription getMeasurementDescription() const override { return VectorDescription(H_.rows()); }
-    VectorDescription getInputDescription() const override { return VectorDescription(H_.cols(), 0, H_.rows()); }
+    std::pair<bool, MatrixXd> getNoiseCovarianceMatrix() const override { return std::make_pair(sh_->cv, sh_->R); }
+    VectorDescription getMeasurementDescription() const override { return VectorDescription(sh_->f.H.rows()); }
+    VectorDescription getInputDescription() const override { return VectorDescription(sh_->f.H.cols(), 0, sh_->f.H.rows()); }
 };
 
 // additive (possibly nonlinear) model for UKFCorrection / SUKFCorrection
 struct ServedFamily : public AdditiveMeasurementModel {
-    Family f; MatrixXd R; const Shared* sh_;
-    ServedFamily(const Family& f_, const MatrixXd& R_, const Shared* sh) : f(f_), R(R_), sh_(sh) {}
+    const Shared* sh_;
+    explicit ServedFamily(const Shared* sh) : sh_(sh) {}
     bool freeze(const Data&) override { return true; }
     std::pair<bool, Data> measure(const Data&) const override { return std::make_pair(sh_->mv, Data(sh_->y)); }
-    std::pair<bool, Data> predictedMeasure(const Ref<const MatrixXd>& X) const override { MatrixXd p = f.eval(X); return std::make_pair(sh_->pv, Data(std::move(p))); }
+    std::pair<bool, Data> predictedMeasure(const Ref<const MatrixXd>& X) const override { MatrixXd p = sh_->f.eval(X); return std::make_pair(sh_->pv, Data(std::move(p))); }
     std::pair<bool, Data> innovation(const Data& p, const Data& m) const override { return innov(sh_->iv, p, m); }
-    std::pair<bool, MatrixXd> getNoiseCovarianceMatrix() const override { return std::make_pair(sh_->cv, R); }
-    VectorDescription getMeasurementDescription() const override { return VectorDescription(f.H.rows()); }
-    VectorDescription getInputDescription() const override { return VectorDescription(f.H.cols(), 0, f.H.rows()); }
+    std::pair<bool, MatrixXd> getNoiseCovarianceMatrix() const override { return std::make_pair(sh_->cv, sh_->R); }
+    VectorDescription getMeasurementDescription() const override { return VectorDescription(sh_->f.H.rows()); }
+    VectorDescription getInputDescription() const override { return VectorDescription(sh_->f.H.cols(), 0, sh_->f.H.rows()); }
 };
 
-// LTI state model; the transition density is the linear-Gaussian one or the
+// Linear state model whose transition matrix and noise covariance are those of the current step
+// (pointers into the Shared record); the transition density is the linear-Gaussian one or the
 // harness' Cauchy-like density 1 / (1 + |cur - A prev|^2)
 struct LTI : public LTIStateModel {
-    long n_; bool cauchy_; MatrixXd F_c, Q_c;
-    LTI(const MatrixXd& F, const MatrixXd& Q, bool cauchy = false) : LTIStateModel(F, Q), n_(F.rows()), cauchy_(cauchy), F_c(F), Q_c(Q) {}
+    long n_; bool cauchy_; const MatrixXd* F_c; const MatrixXd* Q_c;
+    LTI(const MatrixXd* F, const MatrixXd* Q, bool cauchy = false) : LTIStateModel(*F, *Q), n_(F->rows()), cauchy_(cauchy), F_c(F), Q_c(Q) {}
     VectorDescription getStateDescription() override { return VectorDescription(n_); }
+    MatrixXd getStateTransitionMatrix() override { return *F_c; }
+    MatrixXd getNoiseCovarianceMatrix() override { return *Q_c; }
+    MatrixXd getJacobian() override { return *F_c; }
     VectorXd getTransitionProbability(const Ref<const MatrixXd>& prev, const Ref<const MatrixXd>& cur) override {
-        if (!cauchy_) return utils::multivariate_gaussian_density(cur - F_c * prev, VectorXd::Zero(n_), Q_c);
+        if (!cauchy_) return utils::multivariate_gaussian_density(cur - *F_c * prev, VectorXd::Zero(n_), *Q_c);
         VectorXd v(cur.cols());
-        for (long i = 0; i < cur.cols(); i++) { VectorXd d = cur.col(i) - F_c * prev.col(i); v(i) = 1.0 / (1.0 + d.squaredNorm()); }
+        for (long i = 0; i < cur.cols(); i++) { VectorXd d = cur.col(i) - *F_c * prev.col(i); v(i) = 1.0 / (1.0 + d.squaredNorm()); }
         return v;
     }
 };
@@ -104,21 +141,23 @@ static std::pair<bool, VectorXd> resize_lik(const Shared* sh, std::pair<bool, Ve
 }
 // bfl::GaussianLikelihood behind a scripted validity
 struct ScriptedLik : public GaussianLikelihood {
-    const Shared* sh_;
-    ScriptedLik(double scale, const Shared* sh) : GaussianLikelihood(scale), sh_(sh) {}
+    const Shared* sh_; bool serve_scale_;
+    // serve_scale: the scale factor is the one of the current step (Shared), else the constructor's
+    ScriptedLik(double scale, const Shared* sh, bool serve_scale = false) : GaussianLikelihood(scale), sh_(sh), serve_scale_(serve_scale) {}
     std::pair<bool, VectorXd> likelihood(const MeasurementModel& mm, const Ref<const MatrixXd>& states) override {
         if (!sh_->lik_ok) return std::make_pair(false, VectorXd::Zero(1));
+        if (serve_scale_) scale_factor_ = sh_->scale;
         return resize_lik(sh_, GaussianLikelihood::likelihood(mm, states));
     }
 };
 // a likelihood model of its own: scale * N(y - h(x); 0, R), whatever the measurement model says about validity
 struct IndepLik : public LikelihoodModel {
-    Family f; MatrixXd R; double scale; const Shared* sh_;
-    IndepLik(const Family& f_, const MatrixXd& R_, double s, const Shared* sh) : f(f_), R(R_), scale(s), sh_(sh) {}
+    const Shared* sh_;
+    explicit IndepLik(const Shared* sh) : sh_(sh) {}
     std::pair<bool, VectorXd> likelihood(const MeasurementModel&, const Ref<const MatrixXd>& states) override {
         if (!sh_->lik_ok) return std::make_pair(false, VectorXd::Zero(1));
-        MatrixXd i = -(f.eval(states).colwise() - sh_->y.col(0));
-        VectorXd l = scale * utils::multivariate_gaussian_density(i, VectorXd::Zero(i.rows()), R);
+        MatrixXd i = -(sh_->f.eval(states).colwise() - sh_->y.col(0));
+        VectorXd l = sh_->scale * utils::multivariate_gaussian_density(i, VectorXd::Zero(i.rows()), sh_->R);
         return resize_lik(sh_, std::make_pair(true, l));
     }
 };
@@ -147,40 +186,35 @@ struct LoggedGPF : public GPFCorrection {
     }
 };
 
-static Family family(const vf::Case& c) {
-    Family f; f.kind = c.mi("hkind", 0); f.H = c.mat("H"); f.G = c.mat("G"); f.G2 = c.mat("G2"); f.b = c.mat("b"); f.g = c.mat("g");
-    return f;
-}
-
-static std::unique_ptr<StateModel> make_trans(const vf::Case& c) {
+static std::unique_ptr<StateModel> make_trans(const vf::Case& c, const Shared* sh) {
     const std::string k = c.m("tkind", "lingauss");
     if (k.substr(0, 3) == "wna") {
         const MatrixXd& w = c.mat("wna");
         const WhiteNoiseAcceleration::Dim d = k == "wna1" ? WhiteNoiseAcceleration::Dim::OneD : (k == "wna3" ? WhiteNoiseAcceleration::Dim::ThreeD : WhiteNoiseAcceleration::Dim::TwoD);
         return std::unique_ptr<StateModel>(new WhiteNoiseAcceleration(d, w(0, 0), w(0, 1)));
     }
-    return std::unique_ptr<StateModel>(new LTI(c.mat("Ft"), c.mat("Qt"), k == "cauchy"));
+    return std::unique_ptr<StateModel>(new LTI(&sh->Ft, &sh->Qt, k == "cauchy"));
 }
 
-static std::unique_ptr<GaussianPrediction> make_gp(const vf::Case& c) {
+static std::unique_ptr<GaussianPrediction> make_gp(const vf::Case& c, const Shared* sh) {
     const std::string w = c.m("wrap", "kf");
-    if (w == "kf") return std::unique_ptr<GaussianPrediction>(new KFPrediction(std::unique_ptr<LinearStateModel>(new LTI(c.mat("F"), c.mat("Q")))));
+    if (w == "kf") return std::unique_ptr<GaussianPrediction>(new KFPrediction(std::unique_ptr<LinearStateModel>(new LTI(&sh->F, &sh->Q))));
     const MatrixXd& ut = c.mat("ut");
-    return std::unique_ptr<GaussianPrediction>(new UKFPrediction(std::unique_ptr<AdditiveStateModel>(new LTI(c.mat("F"), c.mat("Q"))), ut(0, 0), ut(0, 1), ut(0, 2)));
+    return std::unique_ptr<GaussianPrediction>(new UKFPrediction(std::unique_ptr<AdditiveStateModel>(new LTI(&sh->F, &sh->Q)), ut(0, 0), ut(0, 1), ut(0, 2)));
 }
 
 static std::unique_ptr<GaussianCorrection> make_gc(const vf::Case& c, const Shared* sh) {
     const std::string w = c.m("wrap", "kf");
-    if (w == "kf") return std::unique_ptr<GaussianCorrection>(new KFCorrection(std::unique_ptr<LinearMeasurementModel>(new ServedLTI(c.mat("H"), c.mat("R"), sh))));
+    if (w == "kf") return std::unique_ptr<GaussianCorrection>(new KFCorrection(std::unique_ptr<LinearMeasurementModel>(new ServedLTI(sh->f.H, sh->R, sh))));
     const MatrixXd& ut = c.mat("ut");
-    std::unique_ptr<AdditiveMeasurementModel> mm(new ServedFamily(family(c), c.mat("R"), sh));
+    std::unique_ptr<AdditiveMeasurementModel> mm(new ServedFamily(sh));
     if (w == "ukf") return std::unique_ptr<GaussianCorrection>(new UKFCorrection(std::move(mm), ut(0, 0), ut(0, 1), ut(0, 2)));
     return std::unique_ptr<GaussianCorrection>(new SUKFCorrection(std::move(mm), ut(0, 0), ut(0, 1), ut(0, 2), c.mat("H").rows(), true));
 }
 
-static std::unique_ptr<LikelihoodModel> make_lik(const vf::Case& c, const Shared* sh, double scale) {
-    if (c.m("likkind", "gaussian") == "indep") return std::unique_ptr<LikelihoodModel>(new IndepLik(family(c), c.mat("R"), scale, sh));
-    return std::unique_ptr<LikelihoodModel>(new ScriptedLik(scale, sh));
+static std::unique_ptr<LikelihoodModel> make_lik(const vf::Case& c, const Shared* sh) {
+    if (c.m("likkind", "gaussian") == "indep") return std::unique_ptr<LikelihoodModel>(new IndepLik(sh));
+    return std::unique_ptr<LikelihoodModel>(new ScriptedLik(sh->scale, sh, true));
 }
 
 static void fill(ParticleSet& ps, const vf::Case& c, const std::string& p) {
@@ -210,13 +244,13 @@ static void lifetime_case(const vf::Case& c) {
     const long n = c.mi("n"), N = c.mi("N");
     const unsigned seed = (unsigned)c.integer("seed");
     const double scale = c.mat("scale")(0, 0);
-    Shared sh; sh.y = c.mat("ys").col(0);
+    Shared sh; serve(sh, c, 0);
     ParticleSet pred(N, n);
     fill(pred, c, "c");
     vf::out_begin(c.id);
     if (c.kind == "gpf_fresh") {
         std::memset(g_buf, 0xFF, sizeof g_buf);
-        GPFCorrection* g = new (g_buf) GPFCorrection(std::unique_ptr<LikelihoodModel>(new ScriptedLik(scale, &sh)), make_gc(c, &sh), make_trans(c), seed);
+        GPFCorrection* g = new (g_buf) GPFCorrection(std::unique_ptr<LikelihoodModel>(new ScriptedLik(scale, &sh)), make_gc(c, &sh), make_trans(c, &sh), seed);
         bool ok; VectorXd lik;
         { vf::Entry e("GPFCorrection::getLikelihood"); std::tie(ok, lik) = g->getLikelihood(); }
         vf::out_int("fresh_valid", ok ? 1 : 0);
@@ -225,13 +259,13 @@ static void lifetime_case(const vf::Case& c) {
     } else {
         ParticleSet ca(N, n), cb(N, n), r1(N, n), r2(N, n);
         std::memset(g_buf, 0, sizeof g_buf);
-        GPFCorrection* a = new (g_buf) GPFCorrection(std::unique_ptr<LikelihoodModel>(new ScriptedLik(scale, &sh)), make_gc(c, &sh), make_trans(c), seed);
+        GPFCorrection* a = new (g_buf) GPFCorrection(std::unique_ptr<LikelihoodModel>(new ScriptedLik(scale, &sh)), make_gc(c, &sh), make_trans(c, &sh), seed);
         { vf::Entry e("GPFCorrection::correct"); a->freeze_measurements(); a->correct(pred, ca); }     // writes valid_likelihood_
         GPFCorrection b(std::move(*a));
         a->~GPFCorrection();
         std::memset(g_buf, 0xFF, sizeof g_buf);
         { vf::Entry e("GPFCorrection::correct(moved-to object)"); b.freeze_measurements(); b.correct(pred, cb); }
-        GPFCorrection r(std::unique_ptr<LikelihoodModel>(new ScriptedLik(scale, &sh)), make_gc(c, &sh), make_trans(c), seed);
+        GPFCorrection r(std::unique_ptr<LikelihoodModel>(new ScriptedLik(scale, &sh)), make_gc(c, &sh), make_trans(c, &sh), seed);
         r.freeze_measurements(); r.correct(pred, r1); r.correct(pred, r2);
         vf::out_mat("first_state", ca.state()); vf::out_mat("ref_first_state", r1.state());
         vf::out_mat("moved_state", cb.state()); vf::out_mat("ref_state", r2.state());
@@ -240,15 +274,15 @@ static void lifetime_case(const vf::Case& c) {
         // a2 must continue a1's seeded stream on its own generator and use a1's likelihood model (scale 1.0)
         {
             ParticleSet t0(N, n), cB(N, n), q1(N, n), q2(N, n);
-            GPFCorrection a1(std::unique_ptr<LikelihoodModel>(new ScriptedLik(1.0, &sh)), make_gc(c, &sh), make_trans(c), seed);
-            GPFCorrection a2(std::unique_ptr<LikelihoodModel>(new ScriptedLik(2.5, &sh)), make_gc(c, &sh), make_trans(c), seed + 1);
-            GPFCorrection a3(std::unique_ptr<LikelihoodModel>(new ScriptedLik(4.0, &sh)), make_gc(c, &sh), make_trans(c), seed + 2);
+            GPFCorrection a1(std::unique_ptr<LikelihoodModel>(new ScriptedLik(1.0, &sh)), make_gc(c, &sh), make_trans(c, &sh), seed);
+            GPFCorrection a2(std::unique_ptr<LikelihoodModel>(new ScriptedLik(2.5, &sh)), make_gc(c, &sh), make_trans(c, &sh), seed + 1);
+            GPFCorrection a3(std::unique_ptr<LikelihoodModel>(new ScriptedLik(4.0, &sh)), make_gc(c, &sh), make_trans(c, &sh), seed + 2);
             a1.freeze_measurements(); a1.correct(pred, t0);
             a2 = std::move(a1);
             a1 = std::move(a3);
             { vf::Entry e("GPFCorrection::correct(move-assigned object)"); a2.freeze_measurements(); a2.correct(pred, cB); }
             bool ok; VectorXd lik; std::tie(ok, lik) = a2.getLikelihood();
-            GPFCorrection q(std::unique_ptr<LikelihoodModel>(new ScriptedLik(1.0, &sh)), make_gc(c, &sh), make_trans(c), seed);
+            GPFCorrection q(std::unique_ptr<LikelihoodModel>(new ScriptedLik(1.0, &sh)), make_gc(c, &sh), make_trans(c, &sh), seed);
             q.freeze_measurements(); q.correct(pred, q1); q.correct(pred, q2);
             bool qok; VectorXd qlik; std::tie(qok, qlik) = q.getLikelihood();
             vf::out_mat("assign_state", cB.state()); vf::out_mat("ref_assign_state", q2.state());
@@ -264,10 +298,9 @@ int main() {
     while (vf::read_case(std::cin, c)) {
         if (c.kind == "gpf_fresh" || c.kind == "gpf_moved") { lifetime_case(c); continue; }
         const long n = c.mi("n"), N = c.mi("N"), steps = c.mi("steps");
-        const MatrixXd& ys = c.mat("ys");
         const unsigned seed = (unsigned)c.integer("seed");
-        const double scale = c.mat("scale")(0, 0);
         Shared sh;
+        serve(sh, c, 0);            // the constructors below validate / size themselves on the operands of step 0
         sh.badlik = c.has_int("badlik") ? c.integer("badlik") : 0;
 #ifdef NDEBUG
         // a likelihood vector that is too short makes GPFCorrection.cpp:129 read past its end: only run where Eigen's
@@ -277,16 +310,16 @@ int main() {
         ParticleSet pred(N, n), corr(N, n);
         fill(pred, c, "p"); fill(corr, c, "c");
 
-        std::unique_ptr<GaussianPrediction> gp = make_gp(c);
+        std::unique_ptr<GaussianPrediction> gp = make_gp(c, &sh);
         GaussianPrediction* gp_raw = gp.get();
         std::unique_ptr<GaussianCorrection> gc = make_gc(c, &sh);
         GaussianCorrection* gc_raw = gc.get();
         GPFPrediction gpf_pred(std::move(gp));
-        LoggedGPF gpf_corr(make_lik(c, &sh, scale), std::move(gc), make_trans(c), seed);
+        LoggedGPF gpf_corr(make_lik(c, &sh), std::move(gc), make_trans(c, &sh), seed);
         // the wrapped steps and the transition model, constructed separately
-        std::unique_ptr<GaussianPrediction> sep_gp = make_gp(c);
+        std::unique_ptr<GaussianPrediction> sep_gp = make_gp(c, &sh);
         std::unique_ptr<GaussianCorrection> sep_gc = make_gc(c, &sh);
-        std::unique_ptr<StateModel> sep_trans = make_trans(c);
+        std::unique_ptr<StateModel> sep_trans = make_trans(c, &sh);
         std::mt19937_64 mirror_gen(seed);
         std::normal_distribution<double> mirror_dist(0.0, 1.0);
         bool mirror_ok = true;
@@ -294,7 +327,7 @@ int main() {
         vf::out_begin(c.id);
         for (long k = 0; k < steps; k++) {
             const std::string s = std::to_string(k);
-            sh.y = ys.col(k);
+            serve(sh, c, k);
             sh.mv = flag(c, "mv", k, true); sh.pv = flag(c, "pv", k, true); sh.iv = flag(c, "iv", k, true); sh.cv = flag(c, "cv", k, true);
             sh.lik_ok = flag(c, "lok", k, true);
             const bool skpp = flag(c, "skpp", k, false), skgp = flag(c, "skgp", k, false), skpc = flag(c, "skpc", k, false), skgc = flag(c, "skgc", k, false);
